@@ -8,6 +8,7 @@ TRANSLATORS = [
     ("ConcFacts.lean", ["concfacts"]),
     ("ErrFacts.lean", ["errfacts"]),
     ("MemoFacts.lean", ["memofacts"]),
+    ("LockFacts.lean", ["lockfacts"]),
 ]
 
 
